@@ -436,6 +436,27 @@ func ruleC15(c *Ctx) {
 			c.Require("maporder", "map iteration in "+n+": no more loops than reviewed", false, "%d range-over-map loops in %s and its new helpers; 1 was reviewed", k, n)
 		}
 	}
+	// vote tallies are unsigned: a veto larger than the tally must not wrap it around (the key would
+	// jump to the top of the ranking). Every unsigned subtraction in package protocol/state is
+	// ordered by a dominating comparison, or exempted with the reason.
+	{
+		var sfns []*ssa.Function
+		for f := range c.allFuncs() {
+			p := f.Pkg
+			g := f
+			for p == nil && g.Parent() != nil {
+				g = g.Parent()
+				p = g.Pkg
+			}
+			if p != nil && trimMod(p.Pkg.Path()) == pState && len(f.Blocks) > 0 {
+				sfns = append(sfns, f)
+			}
+		}
+		c.RequireOrderedUsub("usub", sfns, map[string]string{
+			"protocol/state.getValidatorOrder": "blockTimestamp ≥ startTimestamp is established by the caller's caller: ValidateBlockHeader rejects b.Timestamp < parent.Timestamp + BlockTimeInterval (checkBlockTime) before verifyBlockSignature asks for the slot's validator (order checked below); the proposer asks for its own next slot time",
+		})
+		c.RequireOrder("order", c.Func(pVal, "ValidateBlockHeader"), pVal+".checkBlockTime", pVal+".verifyBlockSignature")
+	}
 	av := c.Func(pState, "(*Checkpoint).AllValidators")
 	if av != nil {
 		srt := callsTo(av, false, "sort.Slice")
@@ -555,6 +576,12 @@ func ruleC15(c *Ctx) {
 
 func ruleC38(c *Ctx) {
 	c.Explain("C38 (structural part): proposer↔validator sibling agreement + must-pass + ordering. Decided: the template's header is built as version 1, parent height+1, parent hash of the chain's best header — the three header tests of the validator; transactions are validated against a block context at best height+1 (the proposed block's height) with the chain's program converter; a pool transaction enters the template only after its validation result is error-free, its inputs were loaded, the remaining block gas covers it and applying it to the template's UTXO view succeeded — and the gas test precedes the view update, so a skipped transaction never pollutes the view; the coinbase is built last, from the same reward table and epoch predicate the validator uses, validated with ValidateTx at the block's height and put in slot 0; the merkle root is computed over the final transaction list in order and the header is signed after it (signature over Hash(), which the validator verifies). Not decided: acceptance for all pools/chains (timestamp slot, gas sums are value-level).")
+	// the reward table of a checkpoint is consensus state shared through the store's cache: only the
+	// state package's own bookkeeping writes it (a proposer that edits the map it was handed corrupts
+	// what validation will compare against)
+	c.RequireMapWriters("whowrites", "protocol/state.Checkpoint", "Rewards", map[string]string{
+		"(*protocol/state.Checkpoint).applyValidatorReward": "fees and subsidy of an applied block",
+	})
 	nb := c.Func("proposal", "newBlockBuilder")
 	if nb != nil {
 		chk := func(field string, pred func(ssa.Value) bool, what string) {
